@@ -18,7 +18,7 @@ PROPERTY = "C15"
 
 META = {
     "bounds": {
-        "quick": "(a) every 8-bit string of length <= 3 through parse_as_ast and of length <= 2 through assemble_string_with_emitter; (b) every prefix of 30 template programs + the 2 sample sources followed by 1 symbolic character; (c) token sequences of length <= 3 over all token types x 26 token texts; (d) .for bounds and recursive-macro depth in [-2, 8]",
+        "quick": "(a) every 8-bit string of length <= 3 through parse_as_ast and of length <= 2 through assemble_string_with_emitter; (b) every prefix of 35 template programs + the 2 sample sources followed by 1 symbolic character; (c) token sequences of length <= 3 over all token types x 26 token texts; (d) .for bounds and recursive-macro depth in [-2, 8]",
         "thorough": "(a) length <= 4 (parse) / <= 3 (assemble); (b) 2 symbolic characters; (c) length <= 4; (d) same",
     },
     "outside": ["arbitrary texts longer than the bound", "code points above 255", "dead scanner states unreachable from the public API (lex_macro_args_def)"],
@@ -63,6 +63,11 @@ TEMPLATES = [
     "lda #\n",
     ".pointer label, 0b101\n",
     "{{ a }}\n",
+    "{\n{\n.text 'ab'\n}\n}\n",
+    ".table 't.tbl'\n{\n.scope ns {\n{\n.text 'a'\n}\n}\n}\n",
+    ".macro m(a) {\n{\n.text 'a'\n.db a\n}\n}\n.for i := 0, 2 {\n{\nm(i)\n}\n}\n",
+    ".scope a {\n.scope b {\n{\nl:\n.dl l\n}\n}\n}\n.dw a.b\n",
+    ".macro r(n) {\n.if n {\n{\nr(n - 1)\n}\n}\n}\nr(3)\n",
 ]
 
 
